@@ -129,6 +129,11 @@ func makeReportTelemetry(r Report, cd llotypes.ChannelDefinition, donID uint32) 
 	}
 	svs := make([]*LLOStreamValue, len(r.Values))
 	for i, v := range r.Values {
+		if v == nil {
+			// missing aggregate; telemetry carries an empty value
+			svs[i] = &LLOStreamValue{}
+			continue
+		}
 		b, err := v.MarshalBinary()
 		if err != nil {
 			return nil, fmt.Errorf("error marshalling stream value: %w", err)
